@@ -1785,7 +1785,8 @@ class Transaction(object):
                 n_signs += 1
 
             if not n_signs:
-                break
+                # None of the keys signs this input, they might sign the next inputs
+                continue
 
             # Add already known signatures on correct position
             n_sigs_to_insert = len(self.inputs[tid].signatures)
